@@ -20,7 +20,7 @@ LEVEL = "exploration"
 RULE = (
     "(i) Hypothesis model documents (depth<=3, all value kinds, comments, zones, frontmatter, sentinel) x canonical and "
     "seeded lenient spellings through: emit(parse_with_warnings(x)) [every case]; octave_validate(content).canonical fed "
-    "back; octave_write(content) then normalize mode (diff 'No changes', same hash, same bytes); CLI normalize / validate "
+    "back; octave_write(content) then normalize mode (diff 'No changes', same hash, same bytes) and changes mode (DELETE of one top-level field, result again a fixed point); CLI normalize / validate "
     "--stdin / write --stdin via click's CliRunner [every 4th document]. (ii) every sequence of <=3 (thorough <=4) lexemes over "
     "a 32-lexeme alphabet, joined with and without spaces, as `K::<seq>`, kept when the lenient reader accepts it. Oracle: "
     "the canonical text is accepted by strict parse() and canonicalising it again returns identical bytes. Non-trivial: "
@@ -91,6 +91,25 @@ def classify(c1: str, kind: str, pipeline: str, second: str | None = None) -> st
                 return "C01:cr-in-string-through-file"
             if kind == "not-idempotent" and pred is not None and second in (pred, pred + "\n"):
                 return "C01:cr-in-string-through-file"
+    if kind == "not-idempotent" and pipeline == "write-changes" and second is not None:
+        a, b = c1.split("\n"), second.split("\n")
+        if len(a) == len(b) and [x.strip() for x in a] == [x.strip() for x in b] and all(x.strip().startswith("//") for x, y in zip(a, b) if x != y):
+            return "C01:comment-indent-after-changes-delete"
+        # the deletion moved a comment directly behind an empty container's header, where the reader drops it (C02's known class)
+        it = iter(a)
+        removed = []
+        ok = True
+        for y in b:
+            for x in it:
+                if x == y:
+                    break
+                removed.append(x)
+            else:
+                ok = False
+                break
+        removed += list(it)
+        if ok and removed and all(x.strip().startswith("//") for x in removed):
+            return "C01:comment-behind-empty-container-after-changes-delete"
     return f"C01:unlisted:{pipeline}:{kind}"
 
 
@@ -110,7 +129,7 @@ def check_canonical(c1: str, pipeline: str, origin: str):
     except Exception as e:
         return ("fail", f"C01:unlisted:{pipeline}:emit2-crash", f"[{pipeline}] second emit raised {e!r} | canonical={c1!r}")
     if c2 != c1:
-        return ("fail", classify(c1, "not-idempotent", pipeline),
+        return ("fail", classify(c1, "not-idempotent", pipeline, c2),
                 f"[{pipeline}] canonicalising the canonical text changes it | first={c1!r} | second={c2!r} | input={origin!r}")
     return ("ok", c1)
 
@@ -150,6 +169,26 @@ def tool_roundtrips(text: str, lenient: bool, root: str):
         elif b2 != b1 or n.get("canonical_hash") != w.get("canonical_hash") or n.get("diff") != "No changes":
             out.append((classify(b1.decode("utf-8"), "not-idempotent", "write-normalize", b2.decode("utf-8")),
                         f"normalize mode changed a canonical file: diff={n.get('diff')!r} before={b1!r} after={b2!r}"))
+        # ---- changes mode: delete one top-level field; what octave_write leaves must again be a fixed point
+        try:
+            from octave_mcp import parse as _parse
+            from octave_mcp.core.ast_nodes import Assignment as _A
+
+            keys = [s_.key for s_ in _parse(b1.decode("utf-8")).sections if isinstance(s_, _A)]
+            uniq = [k for k in keys if keys.count(k) == 1]
+        except Exception:
+            uniq = []
+        if uniq:
+            pc = os.path.join(root, "chg.oct.md")
+            with open(pc, "wb") as fh:
+                fh.write(b1)
+            wc = tools.write(target_path=pc, changes={uniq[len(uniq) // 2]: {"$op": "DELETE"}})
+            if wc.get("status") == "success":
+                with open(pc, "rb") as fh:
+                    bc = fh.read().decode("utf-8")
+                res = check_canonical(bc, "write-changes", b1.decode("utf-8"))
+                if res[0] == "fail":
+                    out.append(res[1:])
         # ---- CLI on the canonical file
         code, so, se, exc = tools.cli(["normalize", path])
         if exc is not None:
